@@ -72,12 +72,17 @@ def main(tier):
         recs.append({"id": i, "prog": G.tla_ready(prog), "files": tfiles})
     # spec -> impl: TLC computes the expansions
     wd = V.workdir("C07")
-    tr, out = os.path.join(wd, "progs.ndjson"), os.path.join(wd, "expanded.ndjson")
-    V.write_ndjson(tr, recs)
-    r = V.tlc_must_pass(os.path.join(SPEC, "ExpandTrace.tla"), cfg=os.path.join(SPEC, "ExpandTrace.cfg"),
-                        env={"TRACE": tr, "OUT": out, "MODE": "expand"}, workers=1, deque=True, timeout=1800, tag="C07-expand", xmx="8g")
-    rep.add_tlc(r)
-    exp = {e["id"]: e for e in V.read_ndjson(out)}
+    # (in batches: the judge module accumulates its output in the state, one long run would be quadratic)
+    exp = {}
+    for b0 in range(0, len(recs), 400):
+        tr, out = os.path.join(wd, "progs-%d.ndjson" % b0), os.path.join(wd, "expanded-%d.ndjson" % b0)
+        V.write_ndjson(tr, recs[b0:b0 + 400])
+        if os.path.exists(out):
+            os.remove(out)
+        r = V.tlc_must_pass(os.path.join(SPEC, "ExpandTrace.tla"), cfg=os.path.join(SPEC, "ExpandTrace.cfg"),
+                            env={"TRACE": tr, "OUT": out, "MODE": "expand"}, workers=1, deque=True, timeout=1800, tag="C07-expand", xmx="8g")
+        rep.add_tlc(r)
+        exp.update({e["id"]: e for e in V.read_ndjson(out)})
     if len(exp) != n:
         raise V.ToolError("TLC expanded %d of %d programs" % (len(exp), n))
     cases, meta = [], {}
